@@ -12,7 +12,7 @@ if not os.path.isdir(wt):
     subprocess.check_call(["git", "-C", "/repo", "worktree", "add", "--detach", wt, "HEAD"], stdout=subprocess.DEVNULL, stderr=subprocess.DEVNULL)
 common = f"""You are helping to test a verification effort for the open-source Python library joblib (parallel map, on-disk memoization, numpy-aware pickling).
 You have your OWN scratch git worktree of the library at {wt} (interpreter: /venv/bin/python 3.12; numpy is NOT installed; there is no network).
-Work ONLY inside {wt} and write deliverables ONLY under {out}. Never read or touch /repo or /verif. Never commit. Do not leave processes running; run at most one pytest at a time and always with `timeout`.
+Work ONLY inside {wt} and write deliverables ONLY under {out}. Never read or touch /repo or /verif. Never commit, never use `git stash` (it is shared between worktrees). Do not leave processes running; run at most one pytest at a time and always with `timeout`.
 
 The property (this record is all you are told about what is being verified):
 {json.dumps(rec, indent=1)}
@@ -35,7 +35,7 @@ Deliver for change K (K=1,2,3) the directory {out}/{pid}-d-K/ containing
  * patch.diff  - `git diff` taken in {wt}; must apply with `git apply` to the clean HEAD of the worktree;
  * demo.py     - a small deterministic program: exit code 0 when the property holds (clean tree), non-zero when it is broken (with your change). Force the needed interleaving / crash / fault with monkeypatching, threading.Event, fault injection, subprocesses - no sleeping-and-hoping. Must finish in < 60 s. It is run as `cd <tree> && PYTHONPATH=<tree> /venv/bin/python demo.py` so it must import joblib from the current directory;
  * notes.md    - first line: `{pid}-d-K: <one-line summary>`; then what you changed, why it breaks the property, what it needs to manifest, which test modules you ran and their result.
-Verify yourself, for each change: (1) demo exits 0 on the clean tree (`git stash` / `git checkout -- .`), (2) demo exits non-zero with the change, (3) the test modules that exercise the files you touched pass with the change: `cd {wt} && timeout 1700 /venv/bin/python -m pytest -q -p no:cacheprovider --basetemp={wt}/.bt --timeout=600 joblib/test/test_<module>.py` (test_parallel.py takes a few minutes). A change that makes an existing test fail is useless - rework it.
+Verify yourself, for each change: (1) demo exits 0 on the clean tree (`git diff > /tmp/wt/.../saved.diff; git checkout -- .` - never `git stash`: the stash is shared by all worktrees), (2) demo exits non-zero with the change, (3) the test modules that exercise the files you touched pass with the change: `cd {wt} && timeout 1700 /venv/bin/python -m pytest -q -p no:cacheprovider --basetemp={wt}/.bt --timeout=600 joblib/test/test_<module>.py` (test_parallel.py takes a few minutes). A change that makes an existing test fail is useless - rework it.
 Reset the worktree (`git checkout -- . && git clean -fdq -e .bt`) after each change. Finish with a short report: the ids delivered, one line each."""
 else:
     tag = kind
